@@ -1,6 +1,7 @@
 package main
 
 import (
+	"os"
 	"go/token"
 	"go/types"
 	"strings"
@@ -68,6 +69,13 @@ func boundsRule(c *Ctx, rule string, rels []string, floor int) {
 }
 
 func runC04(c *Ctx) {
+	if os.Getenv("GV_DEBUG_BOUNDS") != "" {
+		wideRuntimeInt = true
+		for _, st := range sliceBoundsAudit(c, c.modulePkgs()) {
+			println(fnKey(st.fn), c.pos(st.ins.Pos()), st.what, st.ok, st.why)
+		}
+		wideRuntimeInt = false
+	}
 	c.rule("C04-R12", "BND: in pkg/interpreter and pkg/vm every index, slice expression and make whose bound derives from an integer supplied by the running program (a type-asserted number, the payload of a VM value) is proven in range by dominating comparisons on the very SSA values used: 0 <= low <= high <= len(x), 0 <= i < len(x), make length >= 0 (phi-aware: clamps count, tests made before a clamp do not)")
 	boundsRule(c, "C04-R12", []string{interpPkg, vmPkg}, 6)
 	// ---------- L1 bounded work ----------
